@@ -117,3 +117,5 @@ macro_rules! coll_empty { ($($n:ident),*) => { verus!{ $(
 )* } } }
 coll_empty!(NativeScripts, PlutusScripts, PlutusList);
 impl TxInputsBuilder { pub uninterp spec fn byron_owners(&self) -> Set<Vec<u8>>; }
+/// the Byron owners whose bootstrap witness the final transaction carries: those of the regular inputs AND of the collateral inputs (property C06)
+pub open spec fn byron_all(b: TransactionBuilder) -> Set<Vec<u8>> { b.inputs.byron_owners() + b.collateral.byron_owners() }
